@@ -24,10 +24,9 @@ def _mk(N, E_, D, A, K, M, T, rv=None):
     return E.MMST(generator=g, reward_fn=DenseRewardFn(rv) if rv else None, time_limit=T)
 
 
-def extra_configs(tier, add):
-    # registered (also seen by the generic / mode / wrapper harnesses): 3 agents on 13 nodes (uneven split 5/4/4), other rewards
-    add("n13a3k2t9-rw", lambda: _mk(13, 20, 4, 3, 2, 9, 9, (4.0, -0.5, -2.0)), 12, time_limit=9,
-        mk=lambda t: _mk(13, 20, 4, 3, 2, 9, t, (4.0, -0.5, -2.0)))
+# NB: no `extra_configs` are registered: the generic / mode / wrapper harnesses already need ~5 min for the three catalog
+# configurations of this compile-heavy environment; the extra configurations below are private to this module, which
+# validates their observations against the declared spec itself (C01).
 
 
 def private_configs(tier):
@@ -37,10 +36,11 @@ def private_configs(tier):
 
     def add(label, make, steps, batch=None, time_limit=None):
         C.append(dict(env=NAME, label=label, make=make, steps=steps, batch=batch or (6 if q else 16), time_limit=time_limit, tags={}))
+    add("n13a3k2t9-rw", lambda: _mk(13, 20, 4, 3, 2, 9, 9, (4.0, -0.5, -2.0)), 12, time_limit=9)   # uneven split 5/4/4, other rewards
     add("n10a2k2-m4t9", lambda: _mk(10, 14, 3, 2, 2, 4, 9), 11, time_limit=9)      # route array shorter than the episode
-    add("n10a2k2-m12t5", lambda: _mk(10, 14, 3, 2, 2, 12, 5), 7, time_limit=5)     # route array longer
     add("n5a1k2-m6t6", lambda: _mk(5, 6, 2, 1, 2, 6, 6), 8, time_limit=6)          # single agent
     if not q:
+        add("n10a2k2-m12t5", lambda: _mk(10, 14, 3, 2, 2, 12, 5), 7, time_limit=5)     # route array longer
         add("n8a2k3-dense", lambda: _mk(8, 20, 7, 2, 3, 10, 10, (1.0, 0.0, -0.25)), 12, time_limit=10)
         add("n24a4k3-t30", lambda: _mk(24, 44, 4, 4, 3, 30, 30), 33, time_limit=30)
         add("default-t70", lambda: _mk(36, 72, 5, 3, 4, 70, 70), 72, time_limit=70)
@@ -315,9 +315,17 @@ def analyze(kit):
             _, st, ts, ac, fl, k0 = roll
             B, TT = ac.shape[0], ac.shape[1]
             perms = np.asarray(perm_of(jnp.asarray(st.key).reshape(-1, 2))).reshape(B, TT + 1, A)
+            spec = env.observation_spec
             for b in range(B):
                 s0, ts0 = R.slice_tree(st, b, 0), R.slice_tree(ts, b, 0)
                 where = dict(cfg=cfg["label"], p=p, b=b)
+                for t in range(min(TT, int(fl[b])) + 1):      # C01: reset, every step up to and including the terminal one
+                    kit.res["C01"].evaluations += 1
+                    kit.res["C01"].distinct.add((cfg["label"], p, b, t, "spec"))
+                    try:
+                        spec.validate(jax.tree_util.tree_map(jnp.asarray, R.slice_tree(ts.observation, b, t)))
+                    except Exception as e:  # noqa
+                        kit.fail(["C01"], "observation violates the declared spec: %s" % str(e)[:120], dict(cfg=cfg["label"], op="spec-validate"), dict(where, t=t, seed=kit.seed))
                 # ---- reset: instance checks (C10), init correspondence, reset-state checkers
                 base = np.asarray(s0.node_edges)[0]
                 calls.append(("mmst_instance_io", [A, N, K] + ints(s0.adj_matrix) + ints(base) + ints(s0.nodes_to_connect)))
